@@ -43,7 +43,7 @@ Fixpoint cl_bfs (fuel : nat) (g : cl_graph) (queue out : list str) : option (lis
       match queue with
       | [] => Some out
       | x :: q =>
-          let fresh := fold_left (fun acc y => if cl_mem y (out ++ x :: q ++ acc) then acc else acc ++ [y])
+          let fresh := fold_left (fun acc y => if cl_mem y ((out ++ x :: q) ++ acc) then acc else acc ++ [y])
                                  (cl_neighbors g x) [] in
           cl_bfs f g (q ++ fresh) (out ++ [x])
       end
